@@ -418,8 +418,11 @@ func checkE2E(c e2eCase) (h.Info, error) {
 			} else if nc >= 'a' && nc <= 'z' {
 				replLower = true
 			}
-			if (replUpper && (baseLower || replLower)) || (replLower && baseUpper) {
-				return h.Info{Class: "invalid-pattern"}, fmt.Errorf("PRECONDITION: replacement %q would make the string mixed case", nc)
+			// the charset as BIP-173 writes it is lower case: its characters are "other charset characters" for
+			// an upper-case string too (the result is mixed case, one more reason to reject it); upper-case
+			// spellings are charset characters only inside a string that is otherwise upper case
+			if replUpper && (baseLower || replLower) {
+				return h.Info{Class: "invalid-pattern"}, fmt.Errorf("PRECONDITION: upper-case replacement %q in a string with lower-case letters", nc)
 			}
 			if symOf(lc) < 0 {
 				return h.Info{Class: "invalid-pattern"}, fmt.Errorf("PRECONDITION: replacement %q not in charset", nc)
@@ -445,6 +448,14 @@ func checkE2E(c e2eCase) (h.Info, error) {
 	cls := fmt.Sprintf("weight%d", len(c.Pos))
 	if inHRP > 0 {
 		cls += "+prefix"
+	}
+	if replLower && baseUpper {
+		// only where an upper-case letter remains: otherwise the result may simply be the lower-case spelling
+		// of a valid string
+		if string(m) == ref.AsciiLower(string(m)) {
+			return h.Info{Class: "invalid-pattern"}, fmt.Errorf("PRECONDITION: lower-case replacements leave no upper-case letter")
+		}
+		cls += "+lower-case-charset-in-upper-case-string"
 	}
 	info := h.Info{Class: cls, NT: true}
 	hrp, data, err := bech32.Decode(string(m))
@@ -491,6 +502,25 @@ func genE2E(t *rapid.T) e2eCase {
 		upper = true
 	}
 	sep := len(hrp)
+	// one in five upper-case strings is edited with the charset as BIP-173 spells it (lower case)
+	crossCase := upper && h.Pick(t, "crosscase", 4, 1) == 1
+	if crossCase {
+		// when the data part has at most four letters: all of them, each by its own lower-case spelling (the
+		// symbol values, and so the checksum, stay as they are; each part of the string is single-case)
+		var letters []int
+		for p := sep + 1; p < len(s); p++ {
+			if s[p] >= 'A' && s[p] <= 'Z' {
+				letters = append(letters, p)
+			}
+		}
+		if len(letters) >= 1 && len(letters) <= 4 && hrp != ref.AsciiUpper(hrp) && rapid.Bool().Draw(t, "swapall") {
+			repl := make([]byte, len(letters))
+			for i, p := range letters {
+				repl[i] = s[p] + 32
+			}
+			return e2eCase{S: h.S(s), Pos: letters, Repl: h.S(repl)}
+		}
+	}
 	var cand []int
 	for p := 0; p < len(s); p++ {
 		if p > sep || (p < sep && kind(s[p]) != 0) {
@@ -523,8 +553,19 @@ func genE2E(t *rapid.T) e2eCase {
 	}
 	repl := make([]byte, len(pos))
 	for i, p := range pos {
-		c, _ := replacementFor(t, s[p], p > sep, upper)
+		c, _ := replacementFor(t, s[p], p > sep, upper && !crossCase)
 		repl[i] = c
+	}
+	if crossCase {
+		m := []byte(s)
+		for i, p := range pos {
+			m[p] = repl[i]
+		}
+		if string(m) == ref.AsciiLower(string(m)) { // no upper-case letter would remain: stay in the string's case
+			for i, p := range pos {
+				repl[i], _ = replacementFor(t, s[p], p > sep, true)
+			}
+		}
 	}
 	return e2eCase{S: h.S(s), Pos: pos, Repl: h.S(repl)}
 }
@@ -533,8 +574,8 @@ func TestEndToEnd(t *testing.T) {
 	h.Run(t, h.Sub[e2eCase]{
 		Prop: "C16", Name: "e2e", N: 200000,
 		Gen: genE2E, Check: checkE2E,
-		Require: []string{"weight1", "weight2", "weight3", "weight4", "weight4+prefix"},
-		Rule:    "random valid strings (prefix 1..83, whole-byte data), substitution patterns of weight 1..4 over data+checksum characters (other charset character) and prefix letters/digits (same kind), random / burst / tail shapes; Decode must reject; every case non-trivial; distinct by (string, pattern)",
+		Require: []string{"weight1", "weight2", "weight3", "weight4", "weight4+prefix", "weight2+lower-case-charset-in-upper-case-string"},
+		Rule:    "random valid strings (prefix 1..83 characters, one in eight a well-known network prefix, whole-byte data; one in four upper case), substitution patterns of weight 1..4 over data+checksum characters (other charset character in the string's case; for one in five upper-case strings the charset's own lower-case characters, including all <= 4 data letters by their lower-case spelling) and prefix letters/digits (same kind), random / burst / tail shapes; Decode must reject; every case non-trivial; distinct by (string, pattern)",
 	})
 }
 
